@@ -37,7 +37,7 @@ impl Check for C18 {
         "recording strategies for Interp1D and Interp2D with declared minimum 0..4 that log every trait call (axis copy, data shape, query bits, \
          target shape) and write f(query, lane index) into the target; data rank 1..4 (2-D: 2..4) static and dynamic; valid and invalid builder \
          inputs (length below the minimum, axis of wrong length, tie / swap / NaN in an axis); every entry point with query dim types Ix0..Ix3 / \
-         IxDyn and queries that include out-of-range values, +-inf and NaN; failure injection in build (each BuilderError kind with a marker \
+         IxDyn, query arrays in standard and non-standard memory layouts (Fortran, strided, reversed, permuted; xs and ys independently), and queries that include out-of-range values, +-inf and NaN; failure injection in build (each BuilderError kind with a marker \
          message) and at a generated call index of a batch. Oracle: the strategy's build is reached only with strictly increasing axes of the \
          data's length and at least the declared minimum of points, and sees exactly the caller's axes and data shape; every interp_into receives \
          the query value(s) bit-for-bit, in query order, and a target of shape data.shape minus the interpolated axes; the caller's result holds \
@@ -50,7 +50,7 @@ impl Check for C18 {
         vec!["'strictly increasing' as defined by C12's reference classification".into()]
     }
     fn required_classes(&self, _t: Tier) -> Vec<&'static str> {
-        vec!["dim:1", "dim:2", "min:0", "min:4", "input:valid", "input:invalid", "inject:build", "inject:interp", "ep:scalar", "ep:interp", "ep:interp_into", "ep:array", "ep:array_into", "qdim:Ix2", "qdim:IxDyn", "query:nan-or-out-of-range"]
+        vec!["dim:1", "dim:2", "min:0", "min:4", "input:valid", "input:invalid", "inject:build", "inject:interp", "ep:scalar", "ep:interp", "ep:interp_into", "ep:array", "ep:array_into", "qdim:Ix2", "qdim:IxDyn", "query:nan-or-out-of-range", "query:nonstandard-layout"]
     }
 }
 
@@ -283,6 +283,14 @@ fn run<T: Flt>(src: &mut Src, obs: &mut Obs, two_d: bool) -> Result<(), Fail> {
     }
     let qa = ArrayD::from_shape_vec(IxDyn(&qsh), qx[..qlen.max(if ep <= 2 { 1 } else { 0 })].to_vec()).unwrap_or_else(|_| ArrayD::from_elem(IxDyn(&[]), qx[0]));
     let ya = ArrayD::from_shape_vec(IxDyn(&qsh), qy[..qlen.max(if ep <= 2 { 1 } else { 0 })].to_vec()).unwrap_or_else(|_| ArrayD::from_elem(IxDyn(&[]), qy[0]));
+    // the query arrays may have any memory layout (independently for xs and ys)
+    let (qa, ya) = if ep >= 3 && src.chance(1, 2) {
+        obs.class("query:nonstandard-layout");
+        let (l1, l2) = (crate::layout::Layout::pick(src), crate::layout::Layout::pick(src));
+        (crate::layout::with_layout(&qa, l1, T::of(-5.0), src), crate::layout::with_layout(&ya, l2, T::of(-6.0), src))
+    } else {
+        (qa, ya)
+    };
     let mut want_shape = qsh.clone();
     want_shape.extend_from_slice(&trailing);
     let poison = T::of(-1.25e-3);
